@@ -132,7 +132,7 @@ def norm_test(F, test):
 
 
 def check(run):
-    rules_userdata(run)
+    run.guard(rules_userdata, run)
     prog = run.prog
     r1 = run.rule('C19.1', 'every `then` step can fail, for the right reason: it asserts something that depends on its arguments and on the documented source, '
                            'reads that source on every normal path and never reads context.trace')
